@@ -16,7 +16,10 @@
      1  model and implementation disagree: [accepts] says accept and thriftgo did
         not (exit 0 and files written), or the other way round      (correspondence)
      8  the edited program does not violate the rule the edit was meant to break,
-        as the declarative predicate [violates] sees it             (correspondence)
+        as the declarative predicate [violates] sees it (edits marked strict), or a
+        value-kind edit of ANY shape (typedef'd, nested in a container, include-
+        qualified) is no defect for [violates_deep] of Idl/RulesKinds.v
+                                                                    (correspondence)
      9  the model ran out of fuel                                   (correspondence)
      2  a rule-breaking tree / bad command line ended in exit status 0
      3  ... left a file under the output directory
@@ -26,7 +29,7 @@
      7  a valid program was rejected AND a Go trace was printed
    (2..7: property oracle evaluated on the observed behaviour of the binary) *)
 From Coq Require Import List Bool Arith NArith ZArith.
-From Verif Require Import Base.Bytes Idl.Ast Idl.AstUtil Idl.Check Idl.Rules Idl.Accept.
+From Verif Require Import Base.Bytes Idl.Ast Idl.AstUtil Idl.Check Idl.Rules Idl.RulesKinds Idl.Accept.
 Import ListNotations.
 
 Record obs := Obs {
@@ -90,7 +93,14 @@ Definition check_case (c : case) : list N :=
   | 1%N =>
     let p := patched c in
     (match rule_of_code (c_rule c) with
-     | Some ru => flag (c_strict c && negb (violates ru p)) 8
+     | Some ru => flag (c_strict c && negb (violates ru p)) 8 ++
+                  (* every value-kind edit, strict or not (typedef'd, nested, include-qualified
+                     shapes), must be a defect as Idl/RulesKinds.v sees it *)
+                  (match ru with
+                   | ConstKindMismatch | StructLiteralBadKey =>
+                     flag (negb (violates_deep ConstKindMismatch p || violates_deep StructLiteralBadKey p)) 8
+                   | _ => []
+                   end)
      | None => [8%N]
      end) ++
     flat_map (fun r => corr_run p r ++ oracle_bad (r_obs r)) (c_runs c)
